@@ -42,11 +42,15 @@ class Cfg:
             if k == "goto":
                 es.append(Edge(i, t["t"], "goto"))
             elif k == "switch":
-                seen = set()
-                for v, tgt in t["targets"]:
-                    es.append(Edge(i, tgt, "sw", v))
-                    seen.add(v)
-                es.append(Edge(i, t["otherwise"], "sw", "otherwise"))
+                d = t["discr"]
+                if d.get("k") == "const" and isinstance(d.get("value"), int):
+                    # constant discriminant (cfg!(..) / debug_assertions): only the matching edge is feasible
+                    hit = [tgt for v, tgt in t["targets"] if v == d["value"]]
+                    es.append(Edge(i, hit[0] if hit else t["otherwise"], "goto"))
+                else:
+                    for v, tgt in t["targets"]:
+                        es.append(Edge(i, tgt, "sw", v))
+                    es.append(Edge(i, t["otherwise"], "sw", "otherwise"))
             elif k in ("call", "drop", "assert"):
                 if t.get("t") is not None:
                     es.append(Edge(i, t["t"], "ret" if k == "call" else k))
